@@ -282,9 +282,15 @@ def gen_kinds(rng, exact):
     """INPUT KINDS: one geometry, its arguments handed over as tuples / lists / ndarrays / Python ints / numpy scalars / float32, the mask as
     a list of lists / integer / float ndarray, the query grids integer-typed / float32 / lists; half of the geometries are INTEGRAL (integer
     scales, origins and query coordinates) so that the integer kinds apply; fully masked masks and 1 x 1 shapes are included"""
-    integral = rng.random() < 0.55
+    mode = rng.random()
+    integral = mode < 0.35                   # everything integral
+    intpts = mode < 0.7                      # integer query coordinates (in a geometry with non-integral origin / scales when not `integral`)
     (H, W), (sy, sx), (oy, ox) = rand_geom(rng, exact)
     if rng.random() < 0.08: H = W = 1
+    if intpts and not integral and exact:
+        # power-of-two scales, origin a quarter-pixel multiple: (integer - origin) / scale is exact
+        sy, sx = Fraction(rng.choice([1, 2, 4, 8, 16]), 4), Fraction(rng.choice([1, 2, 4, 8, 16]), 4)
+        oy, ox = sy * Fraction(rng.randint(-12, 12), 4), sx * Fraction(rng.randint(-12, 12), 4)
     if integral:
         sy, sx = (Fraction(rng.choice([1, 2, 4])), Fraction(rng.choice([1, 2, 4]))) if exact else (Fraction(rng.choice([1, 2, 3, 5])), Fraction(rng.choice([1, 2, 3, 7])))
         oy, ox = Fraction(rng.randint(-3, 3)), Fraction(rng.randint(-3, 3))
@@ -298,8 +304,8 @@ def gen_kinds(rng, exact):
                 if exact or not (in_margin(pixel_pos(H, sy, oy, c[0], True)) or in_margin(pixel_pos(W, sx, ox, c[1], False))): break
             out.append([S(c[0]), S(c[1])])
         return out
-    pts = ipts(4) if integral else rand_points(rng, H, W, sy, sx, oy, ox, exact, 3)
-    pix = [[S(rng.randint(-1, H + 1)), S(rng.randint(-1, W + 1))] for _ in range(3)] if (integral or rng.random() < 0.3) else rand_pix(rng, H, W, exact, 2)
+    pts = ipts(4) if intpts else rand_points(rng, H, W, sy, sx, oy, ox, exact, 3)
+    pix = [[S(rng.randint(-1, H + 1)), S(rng.randint(-1, W + 1))] for _ in range(3)] if intpts else rand_pix(rng, H, W, exact, 2)
     seq = ["list", "nd", "npf", "int", "ndint", "npint"] + (["f32", "npf32"] if exact else [])
     m = rand_mask(rng, H, W)
     u = rng.random()
@@ -310,6 +316,8 @@ def gen_kinds(rng, exact):
              "mask": rng.choice(["list", "listint", "i64", "u8", "f64", "bool"])}
     yield {"op": "kinds", "exact": exact, "shape": [H, W], "s": [S(sy), S(sx)], "o": [S(oy), S(ox)], "m": m, "kinds": kinds,
            "pts": pts, "pix": pix, "gk": [rng.choice(GRID_KINDS) for _ in range(4)],
+           # every query coordinate in its own representation, an integer one among them
+           "ck": [rng.choice(["int", "ndint", "npint"])] + [rng.choice(seq) for _ in range(2)], "pk": [rng.choice(["int", "ndint", "npint"])] + [rng.choice(seq) for _ in range(3)],
            "cont": [rng.choice(factor_pairs(len(pts))), rng.choice(factor_pairs(len(pix)))]}
 
 def gen_kinds1(rng, exact):
@@ -347,7 +355,7 @@ def gen_session(rng, exact):
     for _ in range(rng.randint(9, 14)):
         k = rng.randrange(len(objs))
         (h, w), (a, b), (c, d) = geoms[k]
-        do = rng.choice(["extent", "extent", "central", "pix", "scaled", "gc", "gi", "gp", "gs", "grid", "grid", "edit", "edit", "extentgrid"])
+        do = rng.choice(["extent", "extent", "central", "pix", "scaled", "gc", "gi", "gp", "gs", "grid", "grid", "edit", "edit", "extentgrid", "regrid"])
         st = {"k": k, "do": do, "held": rng.random() < 0.5}
         if do == "pix": st["c"] = rand_points(rng, h, w, a, b, c, d, exact, 1)[0]
         elif do == "scaled": st["p"] = rand_pix(rng, h, w, exact, 1)[0]
@@ -357,6 +365,10 @@ def gen_session(rng, exact):
             st["g"] = rand_pix(rng, h, w, exact, 2); st["cont"] = rng.choice(factor_pairs(len(st["g"])))
         elif do == "edit":
             st["at"] = [rng.randrange(h), rng.randrange(w)]; st["val"] = rng.random() < 0.5
+        elif do == "regrid":
+            # the SAME Grid2D object: queried, its entries overwritten in place by the user, queried again through the same geometry
+            st["g"] = rand_points(rng, h, w, a, b, c, d, exact, 2); st["cont"] = rng.choice(factor_pairs(len(st["g"])))
+            st["g2"] = rand_points(rng, h, w, a, b, c, d, exact, 2); st["which"] = rng.choice(["gc", "gi", "gp"])
         steps.append(st)
         u = rng.random()
         if do != "edit":
@@ -836,7 +848,8 @@ class G1:
         self.ko = {} if o == 0 else {"origin": self.org}
         self.kos = {} if o == 0 else {"origins": self.org}
         self.m = list(map(bool, m)) if m is not None else [False] * n
-        self.mask = aa.Mask1D(mask=self.prints.add(self.mask_arg()), pixel_scales=self.ps, **self.ko)
+        self.ps_pub = self.ps[0] if (n % 2 and type(self.ps[0]) is float and not kinds) else self.ps      # a bare float is widened by convert_pixel_scales_1d
+        self.mask = aa.Mask1D(mask=self.prints.add(self.mask_arg()), pixel_scales=self.ps_pub, **self.ko)
         from autoarray.geometry.geometry_1d import Geometry1D
         self.direct = Geometry1D(shape_native=self.sh, pixel_scales=self.ps, **self.ko)
         self.hdr = f"{cz(n)} {cq(s)} {cq(o)}"
@@ -866,15 +879,15 @@ class G1:
         return terms, str(outs[0].tolist()), same_arr(marr_in, marr) and same_arr(np.array(self.mask), marr.astype(bool)) and self.prints.ok()
     def uniform(self):
         from autoarray.structures.grids import grid_1d_util as g1u
-        U = self.aa.Grid1D.uniform(shape_native=self.sh, pixel_scales=self.ps, **self.ko)
+        U = self.aa.Grid1D.uniform(shape_native=self.sh, pixel_scales=self.ps_pub, **self.ko)
         u = np.array(U)
         u2 = g1u.grid_1d_slim_via_shape_slim_from(shape_slim=self.sh, pixel_scales=self.ps, **self.ko)
         terms = [self.grid_term([False] * self.n, u), self.grid_term([False] * self.n, u2), f"(KUniform1C {self.hdr} {cq(self.tol_s())} {cg1obj(U)})"]
         for inv in (False, True):
-            A = self.aa.Mask1D.all_false(shape_slim=self.sh, pixel_scales=self.ps, **self.ko, invert=inv)
+            A = self.aa.Mask1D.all_false(shape_slim=self.sh, pixel_scales=self.ps_pub, **self.ko, invert=inv)
             terms.append(f"(KAllFalse1C {self.hdr} {cbool(inv)} {cm1obj(A)})")
         # sibling constructor Grid1D.uniform_from_zero: the pixel centres of the origin-0 geometry shifted so that the first is 0, i.e. k * s
-        Z0 = self.aa.Grid1D.uniform_from_zero(shape_native=self.sh, pixel_scales=self.ps)
+        Z0 = self.aa.Grid1D.uniform_from_zero(shape_native=self.sh, pixel_scales=self.ps_pub)
         terms.append(f"(KUniformFromZero1 {cz(self.n)} {cq(self.s)} {cq(tol_of(self.exact, self.n * self.s))} {cg1obj(Z0)})")
         return terms, str(u.tolist()), self.prints.ok()
     def edit(self, at, val):
@@ -913,8 +926,11 @@ def run_case(inp):
         g2 = G2(aa, inp["shape"], inp["s"], inp["o"], exact, m=inp["m"], kinds=inp["kinds"])
         acc = Acc()
         steps = [lambda: g2.central(True), lambda: g2.extent(False), lambda: g2.extentgrid(True), lambda: g2.gridmask()]
-        steps += [(lambda c=c, h=bool(i % 2): g2.pix(c, h)) for i, c in enumerate(inp["pts"][:3])]
-        steps += [(lambda p=p, h=bool(i % 2): g2.scaled(p, h)) for i, p in enumerate(inp["pix"])]
+        def with_kind(which, k, f):
+            g2.kinds[which] = k
+            return f()
+        steps += [(lambda c=c, i=i: with_kind("c", inp["ck"][i % len(inp["ck"])], lambda: g2.pix(c, bool(i % 2)))) for i, c in enumerate(inp["pts"][:3])]
+        steps += [(lambda p=p, i=i: with_kind("p", inp["pk"][i % len(inp["pk"])], lambda: g2.scaled(p, bool(i % 2)))) for i, p in enumerate(inp["pix"])]
         gk = inp["gk"]; c0, c1 = inp["cont"]
         steps += [lambda: g2.grid("gridpixels", grid_obj(aa, inp["pts"], c0, gk[0], exact)), lambda: g2.grid("gridcentres", grid_obj(aa, inp["pts"], c0, gk[1], exact), False),
                   lambda: g2.grid("gridindexes", grid_obj(aa, inp["pts"], c0, gk[2], exact)), lambda: g2.grid("gridscaled", grid_obj(aa, inp["pix"], c1, gk[3], exact), False),
@@ -943,6 +959,14 @@ def run_case(inp):
             elif do == "pix": r = g2.pix(st["c"], held)
             elif do == "scaled": r = g2.scaled(st["p"], held)
             elif do == "grid": r = g2.gridmask(siblings=False)
+            elif do == "regrid":
+                kind = {"gc": "gridcentres", "gi": "gridindexes", "gp": "gridpixels"}[st["which"]]
+                G = grid_obj(aa, st["g"], st["cont"])
+                r = g2.grid(kind, G, held)
+                if r is None: acc.skipped += 1
+                else: acc.add(*r)
+                for k, pnt in enumerate(st["g2"]): G[k] = (fl(pnt[0]), fl(pnt[1]))
+                r = g2.grid(kind, G, held)
             else: r = g2.grid({"gc": "gridcentres", "gi": "gridindexes", "gp": "gridpixels", "gs": "gridscaled"}[do], grid_obj(aa, st["g"], st["cont"]), held)
             if r is None: acc.skipped += 1; continue
             acc.add(*r)
